@@ -164,6 +164,20 @@ def sharing_cases(_=None):
             ('leaf differs inside nested container', fdl.Config(f, [(1, {'z': 2})]),
              fdl.Config(f, [(1, {'z': 3})]), False),
             ('list length differs', fdl.Config(f, [1, 2]), fdl.Config(f, [1, 2, 2]), False)]
+  # aliasing of mutable values that are leaves for daglish (sets, plain objects with __eq__)
+  def mks(shared, leaf):
+    v1 = leaf()
+    v2 = v1 if shared else leaf()
+    return fdl.Config(f, v1, [v2])
+  from layerb import pool as _pool
+  for lname, leaf in (('set', lambda: {1, 2, 3}), ('object', lambda: _pool.Cls(1))):
+    pairs += [(f'{lname} leaf shared==shared', mks(True, leaf), mks(True, leaf), True),
+              (f'{lname} leaf distinct==distinct', mks(False, leaf), mks(False, leaf), True),
+              (f'{lname} leaf shared!=distinct', mks(True, leaf), mks(False, leaf), False)]
+  inner_s = {7}
+  pairs.append(('set shared below a nested Config',
+                fdl.Config(f, fdl.Config(dags.node_fn(1), inner_s), inner_s),
+                fdl.Config(f, fdl.Config(dags.node_fn(1), {7}), {7}), False))
   for name, a, b, want in pairs:
     n += 1
     if safe_eq(a, b)[0] is True:
